@@ -442,6 +442,18 @@ class PCase:
             ob["prover"] = pr.as_dict()
             ob["prover"].pop("goal_status", None)
             ob["status"] = pr.status
+            if pr.status == "trivial" and any(isinstance(x, Poly) and x.t for x in la) and \
+                    sum(x.nterms() + y.nterms() for x, y in zip(la, lb)) <= 1500 and \
+                    not any((x.vars() | y.vars()) & (set(dom.inv_atoms) | set(dom.sq_atoms)) or
+                            any(not isinstance(e, int) or e < 0 for m in list(x.t) + list(y.t) for _, e in m)
+                            for x, y in zip(la, lb)):
+                # both sides have the same polynomial normal form: let the solver confirm impl != oracle is unsat
+                from .direct import decide_identities
+                vd = decide_identities(list(zip(la, lb)), timeout_ms=10000)
+                ob["prover"]["queries"] = len(vd)
+                ob["prover"]["solver_s"] = round(sum(v["solver_s"] for v in vd), 3)
+                ob["direct_identity_verdicts"] = sorted(set(v["verdict"] for v in vd))
+                ob["nontrivial"] = True
             if pr.status == "not_proved":
                 self._refute(ob, tr, args, dom, goals, label, seed, log, replay_dir)
             ob["wall_s"] = round(time.time() - tt, 2)
